@@ -154,4 +154,350 @@ theorem depth_removed (kb : Bool) (ds : Dataset) (coords ns order ddims nsdims :
     simp only [List.mem_filter, List.all_eq_true, decide_eq_true_eq] at hv
     exact hv.2 p.1 hpv hpd
 
+/-- **All other variables are left as they were**: a plain variable without a depth dimension
+comes out of `ocean_floor` identical (dimensions, values, attributes, coordinate status). -/
+theorem other_vars_untouched (kb : Bool) (ds : Dataset) (coords ns order ddims nsdims : List String)
+    (h : Setting kb ds coords ns order ddims nsdims) (out : Dataset)
+    (hout : oceanFloorOrd kb ds coords ns order = some out)
+    (n : String) (u : Var) (hu : ds.find n = some u) (hplain : PlainVar ds coords n)
+    (hnodepth : ∀ d ∈ ddims, d ∉ u.dims) :
+    out.find n = some u := by
+  obtain ⟨S', hrun, _, hout'⟩ := run_eq h
+  rw [hout'] at hout
+  rw [← Option.some.inj hout]
+  have hN := floorReady_normOut kb ddims ds coords (some true) (some false) h.ready
+  have hname : u.name = n := find_name _ _ _ hu
+  -- untouched by the normalisation
+  have hNf : (normOut ds coords (some true) (some false)).find n = some u := by
+    rw [find_normOut, hu, Option.map_some]
+    congr 1
+    apply applyPlans_untouched
+    intro p hp
+    obtain ⟨c, hc, rfl⟩ := List.mem_map.mp hp
+    obtain ⟨cv, d, hg⟩ := h.valid.good c hc
+    have e : planFor ds (some true) (some false) c = planOf cv d (some true) (some false) := by
+      simp [planFor, hg.found, hg.dims]
+    rw [e]
+    refine ⟨?_, ?_, ?_⟩
+    · show u.name ≠ cv.name
+      rw [hname, find_name _ _ _ hg.found]
+      exact fun e => hplain.1 (e ▸ hc)
+    · show cv.bounds ≠ some u.name
+      rw [hname]; exact hplain.2 c hc cv hg.found
+    · show d ∉ u.dims
+      exact hnodepth d (dim_mem_ddims ds coords ddims h.hdd c hc cv d hg)
+  -- untouched by every depth dimension, and kept at the end
+  have hS' : S'.find n = some u :=
+    floorDims_frame kb ddims nsdims _ hN order _ S' h.hord.1 (oinv_refl ddims _ hN.nodup) hrun n u hNf
+      (fun x hx => qual_false_of_not_mem nsdims x u (hnodepth x (h.hord.1 x hx)))
+  exact find_dropDims S' ddims n u hS' hnodepth
+
+/-- **The ocean floor is the deepest valid value of every column.**
+Let `u` be a plain data variable whose only depth dimension is `d`, the dimension of the
+depth coordinate `c` (any sign convention, any ordering, `d` at any position among the
+dimensions of `u`), with at least one spatial dimension, and assume the *static floor*: inside
+the group of `u` (the data variables with `d` and the same set of spatial dimensions) validity
+depends only on the layer and the spatial location — not on the variable nor on the
+non-spatial (time) index.  Then `ocean_floor` succeeds and its variable `u'` has the dimensions
+of `u` without `d`, and at every named index `env`
+* if the whole column of `u` at `env` is missing, `u'` is missing there;
+* otherwise `u'.at env` is the value of `u` at a layer `j` of that column which holds data and
+  such that no valid layer of the column has a greater physical depth (`phys cv`).
+This holds for every order in which the depth dimensions are visited. -/
+theorem floor_spec (kb : Bool) (ds : Dataset) (coords ns order ddims nsdims : List String)
+    (h : Setting kb ds coords ns order ddims nsdims)
+    (c : String) (hc : c ∈ coords) (cv : Var) (d : String) (hg : GoodCoord ds c cv d)
+    (hdn : d ∉ nsdims) (hnspos : ∀ x ∈ nsdims, 0 < ds.sz x)
+    (n : String) (u : Var) (hu : ds.find n = some u) (hplain : PlainVar ds coords n)
+    (hq : qual nsdims d u = true)
+    (hstatic : ∀ e ∈ ds.vars, qual nsdims d e = true →
+      sameSet (spatialOf nsdims d e) (spatialOf nsdims d u) = true →
+      ∀ env : Env, (∀ x ∈ u.dims, x ≠ d → env x < ds.sz x) → ∀ j, j < ds.sz d →
+        (e.at ds.sz (upd (zeroNs nsdims env) d j)).isSome = (u.at ds.sz (upd env d j)).isSome) :
+    ∃ out u', oceanFloorOrd kb ds coords ns order = some out ∧ out.find n = some u'
+      ∧ (∀ x, x ∈ u'.dims ↔ x ∈ u.dims ∧ x ≠ d)
+      ∧ u'.name = u.name ∧ u'.extra = u.extra ∧ u'.isCoord = u.isCoord
+      ∧ ∀ env, InBox ds.sz u'.dims env →
+          ((∀ j, j < ds.sz d → u.at ds.sz (upd env d j) = none) → u'.at ds.sz env = none)
+          ∧ ((∃ j, j < ds.sz d ∧ u.at ds.sz (upd env d j) ≠ none) →
+              ∃ j, j < ds.sz d ∧ u.at ds.sz (upd env d j) ≠ none
+                ∧ u'.at ds.sz env = u.at ds.sz (upd env d j)
+                ∧ ∀ j', j' < ds.sz d → u.at ds.sz (upd env d j') ≠ none →
+                    ∀ p p' : Rat, (phys cv)[j']? = some p' → (phys cv)[j]? = some p → p' ≤ p) := by
+  obtain ⟨S', hrun, hinv, hout⟩ := run_eq h
+  have hN := floorReady_normOut kb ddims ds coords (some true) (some false) h.ready
+  have hd : d ∈ ddims := dim_mem_ddims ds coords ddims h.hdd c hc cv d hg
+  have hud : d ∈ u.dims := qual_mem hq
+  have hum : u ∈ ds.vars := find_mem _ _ _ hu
+  -- abbreviations
+  generalize hNdef : normOut ds coords (some true) (some false) = N at *
+  have hNsz : N.sz = ds.sz := by rw [← hNdef]; rfl
+  generalize hrdef : (planOf cv d (some true) (some false)).rev = r
+  -- the variable after normalisation
+  obtain ⟨hu1f, hu1at⟩ := plain_normOut ds coords ddims (some true) (some false) h.valid h.hdd c hc cv d hg n u hu
+    hplain (h.ready.oneDepth u hum) hud
+  rw [hNdef] at hu1f
+  rw [hrdef] at hu1at
+  generalize hu1def : applyPlans ds.sz (plans ds coords (some true) (some false)) u = u1 at *
+  have hu1d : u1.dims = u.dims := by rw [← hu1def]; exact applyPlans_dims _ _ _
+  have hu1c : u1.isCoord = u.isCoord := by rw [← hu1def]; exact applyPlans_isCoord _ _ _
+  have hq1 : qual nsdims d u1 = true := by rw [(qual_congr nsdims d u1 u hu1d hu1c).1]; exact hq
+  -- the loop over the depth dimensions
+  obtain ⟨e1, he1, he1q, he1s, hS'f⟩ :=
+    floorDims_target kb ddims nsdims N hN n u1 d hd hu1f hq1 order N S' h.hord.1 (h.hord.2 d hd)
+      (oinv_refl ddims N hN.nodup) hu1f hrun
+  -- the group member the floor was taken from, as a variable of the input
+  have he1' : ∃ e ∈ ds.vars, e1 = applyPlans ds.sz (plans ds coords (some true) (some false)) e := by
+    rw [← hNdef] at he1
+    simp only [normOut, Dataset.mapVars, List.mem_map] at he1
+    obtain ⟨e, he, hee⟩ := he1
+    exact ⟨e, he, hee.symm⟩
+  obtain ⟨e, he, he1def⟩ := he1'
+  have he1d : e1.dims = e.dims := by rw [he1def]; exact applyPlans_dims _ _ _
+  have he1c : e1.isCoord = e.isCoord := by rw [he1def]; exact applyPlans_isCoord _ _ _
+  have heq : qual nsdims d e = true := by rw [← (qual_congr nsdims d e1 e he1d he1c).1]; exact he1q
+  have hes : sameSet (spatialOf nsdims d e) (spatialOf nsdims d u) = true := by
+    rw [← (qual_congr nsdims d e1 e he1d he1c).2, ← (qual_congr nsdims d u1 u hu1d hu1c).2]; exact he1s
+  have hed : d ∈ e.dims := qual_mem heq
+  have he1valid := valid_normOut ds coords ddims (some true) (some false) h.valid h.hdd c hc cv d hg e
+    (h.ready.oneDepth e he) hed
+  rw [← he1def, hrdef] at he1valid
+  -- the result variable
+  generalize hu2def : floorVar N.sz nsdims d e1 u1 = u2 at *
+  have hu2nd : ∀ x ∈ ddims, x ∉ u2.dims := by
+    rw [← hu2def]
+    exact floorVar_no_depth kb ddims nsdims N hN d hd e1 u1 he1 (find_mem _ _ _ hu1f) (qual_mem he1q)
+      (qual_mem hq1) N.sz
+  have hu1dd : d ∈ u1.dims := qual_mem hq1
+  have hu2dims : u2.dims = iselDims d (spatialOf nsdims d e1) u1.dims := by
+    rw [← hu2def]; simp [floorVar, hu1dd, iselVar]
+  have hmemdims : ∀ x, x ∈ u2.dims ↔ x ∈ u.dims ∧ x ≠ d := by
+    intro x
+    rw [hu2dims, mem_iselDims, hu1d]
+    constructor
+    · rintro (h1 | ⟨_, h2⟩)
+      · exact h1
+      · have := (sameSet_mem he1s x).mp h2
+        obtain ⟨h3, h4, _⟩ := mem_spatialOf.mp this
+        exact ⟨hu1d ▸ h3, h4⟩
+    · intro h1; exact Or.inl h1
+  refine ⟨S'.dropDims ddims, u2, hout, find_dropDims S' ddims n u2 hS'f hu2nd, hmemdims, ?_, ?_, ?_, ?_⟩
+  · rw [← hu2def, floorVar_name, ← hu1def, applyPlans_name]
+  · rw [← hu2def, floorVar_extra, ← hu1def, applyPlans_extra]
+  · rw [← hu2def, floorVar_isCoord, hu1c]
+  -- the values
+  intro env hbox
+  have hn2 : 2 ≤ ds.sz d := by rw [← hg.sized]; exact hg.levels
+  have hboxu : ∀ x ∈ u.dims, x ≠ d → env x < ds.sz x := by
+    intro x hx hxd
+    exact hbox x ((hmemdims x).mpr ⟨hx, hxd⟩)
+  have hboxe : ∀ x ∈ e.dims, x ≠ d → x ∉ nsdims → env x < ds.sz x := by
+    intro x hx hxd hxn
+    have : x ∈ spatialOf nsdims d e := mem_spatialOf.mpr ⟨hx, hxd, hxn⟩
+    obtain ⟨h3, h4, _⟩ := mem_spatialOf.mp ((sameSet_mem hes x).mp this)
+    exact hboxu x h3 h4
+  -- the value of the result is the value of the normalised variable at the floor index
+  have hat2 : u2.at ds.sz env = u1.at ds.sz (upd env d (floorIdx ds.sz nsdims d e1 env)) := by
+    rw [← hu2def, hNsz]
+    simp only [floorVar, hu1dd, if_true]
+    apply at_iselVar
+    · rw [← hu2dims]; exact hbox
+    · intro x hx hxd
+      rw [mem_iselDims]; exact Or.inl ⟨hx, hxd⟩
+    · intro a b hab
+      unfold floorIdx
+      congr 1
+      apply column_congr
+      intro x hx hxd
+      simp only [zeroNs]
+      by_cases hxn : x ∈ nsdims
+      · simp [hxn]
+      · simp only [hxn, if_false]
+        apply hab
+        rw [mem_iselDims]
+        exact Or.inr ⟨hu1dd, mem_spatialOf.mpr ⟨hx, hxd, hxn⟩⟩
+  -- columns
+  have hcol1 : column ds.sz u1 d env = revIf r (column ds.sz u d env) := by
+    apply column_flip
+    intro j hj
+    rw [hu1at _ (fun x hx => by
+      by_cases hxd : x = d
+      · subst hxd; simpa [upd] using hj
+      · simpa [upd, hxd] using hboxu x hx hxd), flipIf_upd]
+  have hIeq : floorIdx ds.sz nsdims d e1 env = floorIndex (column ds.sz u1 d env) := by
+    unfold floorIdx
+    apply floorIndex_congr
+    unfold column
+    rw [List.map_map, List.map_map]
+    apply List.map_congr_left
+    intro j hj
+    have hj' : j < ds.sz d := by simpa using hj
+    simp only [Function.comp]
+    -- e1 at time 0 ↔ e at time 0 (flipped) ↔ u (flipped) ↔ u1
+    have hb1 : InBox ds.sz e.dims (upd (zeroNs nsdims env) d j) := by
+      intro x hx
+      by_cases hxd : x = d
+      · subst hxd; simpa [upd] using hj'
+      · simp only [upd, hxd, if_false, zeroNs]
+        by_cases hxn : x ∈ nsdims
+        · simpa [hxn] using hnspos x hxn
+        · simpa [hxn] using hboxe x hx hxd hxn
+    rw [he1valid _ hb1, flipIf_upd]
+    have hfl : (if r = true then ds.sz d - 1 - j else j) < ds.sz d := by split <;> omega
+    rw [hstatic e he heq hes env hboxu _ hfl]
+    rw [hu1at _ (fun x hx => by
+      by_cases hxd : x = d
+      · subst hxd; simpa [upd] using hj'
+      · simpa [upd, hxd] using hboxu x hx hxd), flipIf_upd]
+  -- the column-level theorem
+  obtain ⟨cv', _, ha⟩ := coord_after ds coords (some true) (some false) h.valid c hc cv d hg
+  have hord := order_after ds c cv cv' d (some true) false hg ha
+  have hinc : (revIf r (phys cv)).Pairwise (· < ·) := by
+    have : phys cv' = revIf r (phys cv) := by rw [ha.phys, ← hrdef]; rfl
+    rw [← this]; simpa using hord
+  have hlp : (phys cv).length = ds.sz d := by rw [length_phys cv hg.noNaN, hg.sized]
+  obtain ⟨hi, hj, hget, hnone, hsome⟩ :=
+    column_pick (ds.sz d) (column ds.sz u d env) (phys cv) r (length_column _ _ _ _) hlp (by omega) hinc
+  rw [← hcol1, ← hIeq] at hi hget
+  -- read the result through the columns
+  have hval : u2.at ds.sz env
+      = u.at ds.sz (upd env d (if r = true then ds.sz d - 1 - floorIdx ds.sz nsdims d e1 env
+          else floorIdx ds.sz nsdims d e1 env)) := by
+    rw [hat2]
+    have a := getElem?_column ds.sz u1 d env _ hi
+    rw [hget] at a
+    rw [← hcol1, ← hIeq] at hj
+    rw [getElem?_column ds.sz u d env _ hj] at a
+    exact (Option.some.inj a).symm
+  rw [← hcol1, ← hIeq] at hj hnone hsome
+  generalize hjdef : (if r = true then ds.sz d - 1 - floorIdx ds.sz nsdims d e1 env
+      else floorIdx ds.sz nsdims d e1 env) = jstar at *
+  constructor
+  · intro hall
+    have : ∀ x ∈ column ds.sz u d env, x = none := by
+      intro x hx
+      simp only [column, List.mem_map, List.mem_range] at hx
+      obtain ⟨j, hj', rfl⟩ := hx
+      exact hall j hj'
+    have := hnone this
+    rw [getElem?_column ds.sz u d env _ hj] at this
+    rw [hval]; exact Option.some.inj this
+  · rintro ⟨j0, hj0, hj0v⟩
+    have hex : ∃ x ∈ column ds.sz u d env, x ≠ none :=
+      ⟨_, by simp only [column, List.mem_map, List.mem_range]; exact ⟨j0, hj0, rfl⟩, hj0v⟩
+    obtain ⟨⟨a, ha'⟩, hopt⟩ := hsome hex
+    rw [getElem?_column ds.sz u d env _ hj] at ha'
+    have hva : u.at ds.sz (upd env d jstar) = some a := Option.some.inj ha'
+    refine ⟨jstar, hj, by rw [hva]; simp, hval, ?_⟩
+    intro j' hj' hj'v p p' hp' hp
+    cases hv : u.at ds.sz (upd env d j') with
+    | none => exact absurd hv hj'v
+    | some a' =>
+      exact hopt j' a' (by rw [getElem?_column ds.sz u d env _ hj', hv]) p p' hp' hp
+
+/-! ## Non-vacuity and the bounds-variable witness -/
+
+/-- positive-up coordinate stored shallow to deep, a time coordinate, two variables of one
+group with the depth dimension in different positions and the same staircase floor, a
+surface variable -/
+def fx : Dataset :=
+  { sizes := [("k", 3), ("t", 2), ("x", 2)],
+    vars := [
+      { name := "zc", dims := ["k"], data := [some (-1), some (-2), some (-4)], positive := some "up",
+        bounds := none, isCoord := true, extra := "a" },
+      { name := "time", dims := ["t"], data := [some 0, some 1], positive := none,
+        bounds := none, isCoord := true, extra := "t" },
+      { name := "temp", dims := ["t", "x", "k"],
+        data := [some 1, some 2, none, some 4, none, none, some 7, some 8, none, some 10, none, none],
+        positive := none, bounds := none, isCoord := false, extra := "c" },
+      { name := "salt", dims := ["k", "x"],
+        data := [some 21, some 22, some 23, none, none, none],
+        positive := none, bounds := none, isCoord := false, extra := "s" },
+      { name := "surf", dims := ["x"], data := [some 5, some 6], positive := none, bounds := none,
+        isCoord := false, extra := "d" } ] }
+
+theorem fxValid : Valid fx ["zc"] where
+  good := by
+    intro c hc
+    simp only [List.mem_singleton] at hc
+    subst hc
+    exact ⟨fx.vars[0], "k", ⟨by decide, rfl, by decide, by decide, Or.inr (by decide),
+      Or.inr (Or.inl rfl), by decide, by decide⟩⟩
+  indep := by simp
+  names := by decide
+  wf := by
+    intro v hv
+    simp only [fx, List.mem_cons, List.not_mem_nil, or_false] at hv
+    rcases hv with rfl | rfl | rfl | rfl | rfl <;> decide
+
+theorem fxSetting (kb : Bool) : Setting kb fx ["zc"] ["time"] ["k"] ["k"] ["t"] where
+  valid := fxValid
+  hdd := by decide
+  hns := by decide
+  ready := by
+    refine ⟨by unfold NamesNodup; decide, ?_, ?_, ?_⟩
+    · intro v _ a ha b hb _ _
+      simp only [List.mem_singleton] at ha hb
+      rw [ha, hb]
+    · intro v hv hc d hd hdv
+      simp only [List.mem_singleton] at hd
+      subst hd
+      simp only [fx, List.mem_cons, List.not_mem_nil, or_false] at hv
+      rcases hv with rfl | rfl | rfl | rfl | rfl <;> simp_all
+    · intro _ v hv w hw hb
+      simp only [fx, List.mem_cons, List.not_mem_nil, or_false] at hw
+      rcases hw with rfl | rfl | rfl | rfl | rfl <;> simp at hb
+  hord := by simp
+
+/-- the model computes the floor: `temp` (depth last, positive up) → the deepest valid value per
+`(t, x)`; `salt` (depth first) likewise; depth coordinate and dimension gone, `surf` untouched -/
+example : oceanFloorOrd true fx ["zc"] ["time"] ["k"] = some
+  { sizes := [("t", 2), ("x", 2)],
+    vars := [
+      { name := "time", dims := ["t"], data := [some 0, some 1], positive := none,
+        bounds := none, isCoord := true, extra := "t" },
+      { name := "temp", dims := ["t", "x"], data := [some 2, some 4, some 8, some 10],
+        positive := none, bounds := none, isCoord := false, extra := "c" },
+      { name := "salt", dims := ["x"], data := [some 23, some 22],
+        positive := none, bounds := none, isCoord := false, extra := "s" },
+      { name := "surf", dims := ["x"], data := [some 5, some 6], positive := none, bounds := none,
+        isCoord := false, extra := "d" } ] } := by decide
+
+example : ∃ out, oceanFloorOrd true fx ["zc"] ["time"] ["k"] = some out :=
+  ocean_floor_succeeds true fx _ _ _ _ _ (fxSetting true)
+
+example : PlainVar fx ["zc"] "temp" ∧ qual ["t"] "k" fx.vars[2] = true := by
+  refine ⟨⟨by decide, ?_⟩, by decide⟩
+  intro c hc cv hf
+  simp only [List.mem_singleton] at hc
+  subst hc
+  have : cv = fx.vars[0] := Option.some.inj (hf.symm.trans (by decide))
+  subst this
+  decide
+
+/-- **The bounds-variable witness** (finding `ocean-floor-bounds-variable`): a depth coordinate
+with a bounds variable stored *after* a data variable of the same depth dimension.  The code
+as written (`kb = true`) raises; with `keep_bounds=False` (`kb = false`) the floor is
+computed.  The hypothesis `FloorReady.noBounds` is exactly what excludes this input. -/
+def bx : Dataset :=
+  { sizes := [("k", 2), ("x", 2), ("nv", 2)],
+    vars := [
+      { name := "zc", dims := ["k"], data := [some 1, some 3], positive := some "down",
+        bounds := some "zb", isCoord := true, extra := "a" },
+      { name := "temp", dims := ["k", "x"], data := [some 1, some 2, some 3, none],
+        positive := none, bounds := none, isCoord := false, extra := "c" },
+      { name := "zb", dims := ["k", "nv"], data := [some 0, some 2, some 2, some 4],
+        positive := none, bounds := none, isCoord := false, extra := "b" } ] }
+
+theorem keep_bounds_breaks_ocean_floor :
+    oceanFloor true bx ["zc"] [] = none
+    ∧ oceanFloor false bx ["zc"] [] = some
+        { sizes := [("x", 2), ("nv", 2)],
+          vars := [
+            { name := "zb", dims := ["nv"], data := [some 2, some 4],
+              positive := none, bounds := none, isCoord := false, extra := "b" },
+            { name := "temp", dims := ["x"], data := [some 3, some 2],
+              positive := none, bounds := none, isCoord := false, extra := "c" } ] } := by
+  decide
+
 end Ems.C12
